@@ -31,8 +31,23 @@ class TLCError(RuntimeError):
     """Machinery failure (never an implementation verdict)."""
 
 
+_JTMP: List[Path] = []
+
+
+def _java_tmp() -> Path:
+    """One scratch directory per harness process for the JVM's own temporary files (TLC leaves hundreds of `tlc-*` entries
+    in java.io.tmpdir per run); removed when the process ends."""
+    if not _JTMP:
+        import atexit
+
+        d = Path(tempfile.mkdtemp(prefix="verif_jtmp_"))
+        _JTMP.append(d)
+        atexit.register(lambda: shutil.rmtree(d, ignore_errors=True))
+    return _JTMP[0]
+
+
 def _java(extra_props: Optional[List[str]] = None, heap: str = "4g") -> List[str]:
-    cmd = ["java", "-XX:+UseParallelGC", f"-Xmx{heap}"]
+    cmd = ["java", "-XX:+UseParallelGC", f"-Xmx{heap}", f"-Djava.io.tmpdir={_java_tmp()}"]
     cmd += extra_props or []
     cmd += ["-cp", f"{JAR}:{DEPS}", "tlc2.TLC"]
     return cmd
